@@ -1,6 +1,6 @@
-(* C08 — proofs: Equal values hash alike (all values without a float -0.0),
-   consequences for a hash map with the Equal/Hash interface, refutation
-   witnesses for the signed zero, soundness of the oracle. *)
+(* C08 — proofs: Equal values hash alike (all well-formed values),
+   consequences for a hash map with the Equal/Hash interface, soundness of the
+   oracle. *)
 From verif Require Import lib.Base model.C08_Value model.C08 proofs.C08_Value_proofs.
 From Coq Require Import QArith Permutation Arith.
 Close Scope Q_scope.
@@ -14,29 +14,6 @@ Lemma hash_list s l : hash (VList s l) = fold_left hstep l djb_init.
 Proof. reflexivity. Qed.
 Lemma hash_map m : hash (VMap m) = fold_left (fun h e => w32 (h + tm e)) m 0.
 Proof. reflexivity. Qed.
-
-Lemma has_negzero_list s l : has_negzero (VList s l) = existsb has_negzero l.
-Proof. reflexivity. Qed.
-Lemma has_negzero_map m :
-  has_negzero (VMap m) = existsb (fun e => has_negzero (fst e) || has_negzero (snd e)) m.
-Proof. reflexivity. Qed.
-
-Definition nz (v : value) : Prop := has_negzero v = false.
-
-Lemma existsb_false_in {A} (f : A -> bool) l x : existsb f l = false -> In x l -> f x = false.
-Proof.
-  intros H Hx. destruct (f x) eqn:E; [|reflexivity].
-  assert (existsb f l = true) by (apply existsb_exists; eauto). congruence.
-Qed.
-
-Lemma nz_list_in s l x : nz (VList s l) -> In x l -> nz x.
-Proof. unfold nz. rewrite has_negzero_list. apply existsb_false_in. Qed.
-
-Lemma nz_map_in m e : nz (VMap m) -> In e m -> nz (fst e) /\ nz (snd e).
-Proof.
-  unfold nz. rewrite has_negzero_map. intros H He.
-  apply (existsb_false_in _ _ _ H) in He. now apply orb_false_iff in He.
-Qed.
 
 (* ---- floats: == and same bits ---- *)
 Lemma f_decomp x : x < 2 ^ 64 -> x = (if f_sign x then 2 ^ 63 else 0) + f_mag x.
@@ -53,22 +30,31 @@ Qed.
 Lemma f_mag_lt x : f_mag x < 2 ^ 63.
 Proof. unfold f_mag. apply N.mod_lt. discriminate. Qed.
 
-Lemma f_eq_same_bits x y :
-  x < 2 ^ 64 -> y < 2 ^ 64 -> f_is_negzero x = false -> f_is_negzero y = false ->
-  f_eq x y = true -> x = y.
-Proof.
-  intros Hx Hy Nx Ny H. unfold f_eq in H.
-  apply andb_true_iff in H as [_ K]. apply Z.eqb_eq in K.
-  pose proof (f_decomp x Hx) as Dx. pose proof (f_decomp y Hy) as Dy.
-  unfold f_is_negzero in *. apply N.eqb_neq in Nx, Ny.
-  unfold f_key in K.
-  destruct (f_sign x), (f_sign y); try lia.
-Qed.
-
 Lemma wf_float b : wf (VFloat b) -> b < 2 ^ 64.
 Proof. unfold wf. intros H. apply N.ltb_lt. exact H. Qed.
-Lemma nz_float b : nz (VFloat b) -> f_is_negzero b = false.
-Proof. intros H. exact H. Qed.
+
+(* Equal floats have the same bits or are both zeros *)
+Lemma equal_float_bits x y :
+  x < 2 ^ 64 -> y < 2 ^ 64 -> VFloat x ~= VFloat y ->
+  x = y \/ (f_is_zero x = true /\ f_is_zero y = true).
+Proof.
+  intros Hx Hy H. cbn [equal] in H. unfold f_eq in H.
+  apply andb_true_iff in H as [_ K]. apply Z.eqb_eq in K.
+  pose proof (f_decomp x Hx) as Dx. pose proof (f_decomp y Hy) as Dy.
+  unfold f_key in K. unfold f_is_zero.
+  destruct (f_sign x), (f_sign y).
+  - left. lia.
+  - right. split; apply N.eqb_eq; lia.
+  - right. split; apply N.eqb_eq; lia.
+  - left. lia.
+Qed.
+
+Lemma f_canon_eq x y :
+  x < 2 ^ 64 -> y < 2 ^ 64 -> f_eq x y = true -> f_canon x = f_canon y.
+Proof.
+  intros Hx Hy H. destruct (equal_float_bits x y Hx Hy H) as [->|[Zx Zy]]; [reflexivity|].
+  unfold f_canon. now rewrite Zx, Zy.
+Qed.
 
 (* ---- hash of lists and maps ---- *)
 Lemma fold_hstep_eql x : forall y h,
@@ -123,11 +109,11 @@ Lemma Forall2_map_eq {A B} (f : A -> N) (g : B -> N) l l' :
   Forall2 (fun a b => f a = g b) l l' -> map f l = map g l'.
 Proof. induction 1; cbn; congruence. Qed.
 
-(* ---- equal ==> same hash, for values without -0.0 ---- *)
+(* ---- equal ==> same hash, for all well-formed values ---- *)
 Lemma equal_hash_n n : forall a b,
-  (vsize a < n)%nat -> wf a -> wf b -> nz a -> nz b -> a ~= b -> hash a = hash b.
+  (vsize a < n)%nat -> wf a -> wf b -> a ~= b -> hash a = hash b.
 Proof.
-  induction n as [|n IH]; intros a b Sz Wa Wb Na Nb E; [lia|].
+  induction n as [|n IH]; intros a b Sz Wa Wb E; [lia|].
   destruct a, b; try (cbn in E; discriminate E).
   - reflexivity.
   - cbn in E. apply Bool.eqb_prop in E. now subst.
@@ -135,16 +121,15 @@ Proof.
   - cbn in E. apply Z.eqb_eq in E. now subst.
   - cbn [equal] in E. apply Qeq_bool_iff in E. cbn [hash]. unfold hash_rat.
     now rewrite (Qred_complete _ _ E).
-  - change (f_eq bits bits0 = true) in E. change (hash_u64 bits = hash_u64 bits0). f_equal.
-    apply f_eq_same_bits; [apply wf_float|apply wf_float|apply nz_float|apply nz_float|]; assumption.
+  - change (f_eq bits bits0 = true) in E.
+    change (hash_u64 (f_canon bits) = hash_u64 (f_canon bits0)). f_equal.
+    apply f_canon_eq; [apply wf_float|apply wf_float|]; assumption.
   - cbn in E. apply bytes_eqb_spec in E. now subst.
   - rewrite equal_list in E. rewrite !hash_list. apply fold_hstep_eql; auto.
     intros p q Hp Hq Epq. apply IH; auto.
     + pose proof (vsize_list_in sub l p Hp). lia.
     + apply (wf_list_in sub l); auto.
     + apply (wf_list_in sub0 l0); auto.
-    + apply (nz_list_in sub l); auto.
-    + apply (nz_list_in sub0 l0); auto.
   - rewrite equal_map in E. apply andb_true_iff in E as [L S]. apply Nat.eqb_eq in L.
     destruct (msub_perm wf (fun x y _ _ => equal_sym x y ltac:(assumption) ltac:(assumption))
                 (fun x y z _ _ _ => equal_trans x y z ltac:(assumption) ltac:(assumption) ltac:(assumption))
@@ -155,37 +140,13 @@ Proof.
     intros e e' He He' [A B].
     assert (He'2 : In e' m0) by (eapply Permutation_in; [apply Permutation_sym|]; eauto).
     destruct (wf_map_in _ _ Wa He) as [W1 W2]. destruct (wf_map_in _ _ Wb He'2) as [W3 W4].
-    destruct (nz_map_in _ _ Na He) as [N1 N2]. destruct (nz_map_in _ _ Nb He'2) as [N3 N4].
     destruct (vsize_map_in _ _ He) as [S1 S2].
     unfold tm. rewrite (IH (fst e) (fst e')), (IH (snd e) (snd e')); auto; lia.
   - cbn in E. apply andb_true_iff in E as [_ E]. apply N.eqb_eq in E. now subst.
 Qed.
 
-Theorem equal_hash_partial a b :
-  wf a -> wf b -> nz a -> nz b -> a ~= b -> hash a = hash b.
+Theorem equal_hash a b : wf a -> wf b -> a ~= b -> hash a = hash b.
 Proof. apply (equal_hash_n (S (vsize a))). lia. Qed.
-
-Lemma equal_hash_refuted_w :
-  exists a b, wf a /\ wf b /\ a ~= b /\ hash a <> hash b.
-Proof.
-  exists (VFloat 0), (VFloat (2 ^ 63)). repeat split; try reflexivity. vm_compute. congruence.
-Qed.
-
-(* the defect is exactly the sign of zero: Equal floats differ at most there *)
-Lemma equal_float_bits x y :
-  x < 2 ^ 64 -> y < 2 ^ 64 -> VFloat x ~= VFloat y ->
-  x = y \/ (f_is_zero x = true /\ f_is_zero y = true).
-Proof.
-  intros Hx Hy H. cbn [equal] in H. unfold f_eq in H.
-  apply andb_true_iff in H as [_ K]. apply Z.eqb_eq in K.
-  pose proof (f_decomp x Hx) as Dx. pose proof (f_decomp y Hy) as Dy.
-  unfold f_key in K. unfold f_is_zero.
-  destruct (f_sign x), (f_sign y).
-  - left. lia.
-  - right. split; apply N.eqb_eq; lia.
-  - right. split; apply N.eqb_eq; lia.
-  - left. lia.
-Qed.
 
 (* ------------------------------------------------------------------ *)
 (* a hash map with the Equal/Hash interface *)
@@ -341,45 +302,26 @@ Section History.
   Qed.
 End History.
 
-(* the universe of well-formed values without -0.0 *)
-Definition good (v : value) : Prop := wf v /\ nz v.
-Lemma good_hash_ok : hash_ok good.
-Proof. intros x y [Wx Nx] [Wy Ny]. now apply equal_hash_partial. Qed.
+(* Equal implies equal hashes on all well-formed values *)
+Lemma wf_hash_ok : hash_ok wf.
+Proof. intros x y Wx Wy. now apply equal_hash. Qed.
 
-Theorem no_two_eq_keys_partial ops :
-  (forall o, In o ops -> good (op_key o)) -> no_eq_keys (hm_run ops).
-Proof. apply (no_two_eq_keys good); [now intros x [W _]|exact good_hash_ok]. Qed.
+Theorem no_two_eq_keys_wf ops :
+  (forall o, In o ops -> wf (op_key o)) -> no_eq_keys (hm_run ops).
+Proof. apply (no_two_eq_keys wf); [auto|exact wf_hash_ok]. Qed.
 
-Theorem eq_keys_same_slot_partial a b m v :
-  good a -> good b -> a ~= b -> keys_wf m ->
+Theorem eq_keys_same_slot a b m v :
+  wf a -> wf b -> a ~= b -> keys_wf m ->
   hm_find a m = hm_find b m /\
   hm_dissoc a m = hm_dissoc b m /\
   map snd (hm_assoc a v m) = map snd (hm_assoc b v m) /\
   length (hm_assoc a v m) = length (hm_assoc b v m) /\
   (forall k, wf k -> hm_find k (hm_assoc a v m) = hm_find k (hm_assoc b v m)).
 Proof.
-  intros [Wa Na] [Wb Nb] E Wm.
-  pose proof (equal_hash_partial a b Wa Wb Na Nb E) as H.
+  intros Wa Wb E Wm.
+  pose proof (equal_hash a b Wa Wb E) as H.
   split; [now apply hm_find_eq|]. split; [now apply hm_dissoc_eq|].
   now apply hm_assoc_eq.
-Qed.
-
-(* with the signed zeros: two Equal keys in one map, and lookups that differ *)
-Lemma two_eq_keys_refuted_w :
-  exists ops, (forall o, In o ops -> wf (op_key o)) /\ ~ no_eq_keys (hm_run ops).
-Proof.
-  exists [MAssoc (VFloat 0) 1%Z; MAssoc (VFloat (2 ^ 63)) 2%Z]. split.
-  - intros o [<-|[<-|[]]]; reflexivity.
-  - vm_compute. intros [H _]. specialize (H _ (or_introl eq_refl)). discriminate.
-Qed.
-
-Lemma eq_keys_same_slot_refuted_w :
-  exists a b m, wf a /\ wf b /\ a ~= b /\ keys_wf m /\ hm_find a m <> hm_find b m.
-Proof.
-  exists (VFloat 0), (VFloat (2 ^ 63)), [(VFloat 0, 1%Z)].
-  repeat split; try reflexivity.
-  - intros e [<-|[]]. reflexivity.
-  - vm_compute. discriminate.
 Qed.
 
 (* ------------------------------------------------------------------ *)
@@ -419,11 +361,10 @@ Proof.
     try assumption; try (now apply negb_true_iff).
 Qed.
 
-(* what the model predicts satisfies the pair property whenever the values are
-   well-formed and free of -0.0 *)
-Lemma model_pair_ok a b : good a -> good b -> check_pair (model_pair a b) = true.
+(* what the model predicts satisfies the pair property *)
+Lemma model_pair_ok a b : wf a -> wf b -> check_pair (model_pair a b) = true.
 Proof.
-  intros [Wa Na] [Wb Nb]. unfold check_pair, model_pair. cbn.
+  intros Wa Wb. unfold check_pair, model_pair. cbn.
   rewrite Bool.eqb_reflx. cbn. destruct (equal a b) eqn:E; [|reflexivity].
-  apply N.eqb_eq. now apply equal_hash_partial.
+  apply N.eqb_eq. now apply equal_hash.
 Qed.
